@@ -103,6 +103,9 @@ func register(prop string, rules ...Rule) { registry[prop] = append(registry[pro
 
 func runRules(P *Program, R *Report, rules []Rule) {
 	for _, r := range rules {
+		if sk := os.Getenv("GABILINT_SKIP"); sk != "" && strings.Contains(","+sk+",", ","+r.ID+",") {
+			continue
+		}
 		R.curRule = r.ID
 		R.rulesRun = append(R.rulesRun, r.ID)
 		R.explain = append(R.explain, r.ID+": "+r.Explain)
